@@ -1,4 +1,7 @@
-use super::{Namespace, TryFromNode, doc::RustDocument};
+use super::{
+    Namespace, TryFromNode,
+    doc::{ComponentKind, RustDocument},
+};
 use crate::{
     error::{WriterError, WriterResult},
     reader::WriteXml,
@@ -98,7 +101,13 @@ impl<'n> TryFromNode<'n> for Field {
                 None => doc.current_target_namespace.clone(),
             };
 
-            let ref_node = doc.find_node_by_xml_name(&node, xml_name, namespace.as_deref());
+            // `element ref=` denotes a global element, `group ref=` a named model group
+            let kind = if node.tag_name().name() == "group" {
+                ComponentKind::Type
+            } else {
+                ComponentKind::Element
+            };
+            let ref_node = doc.find_node_by_xml_name(&node, xml_name, namespace.as_deref(), kind);
             let ref_node = ref_node
                 .as_ref()
                 .ok_or_else(|| WriterError::NodeNotFound(ref_name.to_string()))?;
